@@ -46,13 +46,24 @@ inductive ClientAct where
 
 /-! ### callback digest -/
 
+def toHexNat (n : Nat) : String := String.ofList (Nat.toDigits 16 n)
+
+/-- text of the address carried by answer `i` of the virtual server's reply (see harness/h_sim.c) -/
+def answerAddr (qtype mark i : Nat) : String :=
+  if qtype == 28 then
+    let g6 := mark / 256 % 256
+    let g7 := (mark % 256) * 256 + (i + 1)
+    if g6 == 0 then s!"2001::{toHexNat g7}" else s!"2001::{toHexNat g6}:{toHexNat g7}"
+  else s!"10.{mark / 256 % 256}.{mark % 256}.{i + 1}"
+
+
 def digest (r : Option Reply) : String :=
   match r with
   | none => "-"
   | some r =>
     let addrs := (List.range (min r.an 4)).map fun i =>
       let ttl := (r.ttls.getD i (r.ttls.getLastD 300))
-      s!",10.{r.mark / 256 % 256}.{r.mark % 256}.{i + 1}/{ttl}"
+      s!",{answerAddr r.qtype r.mark i}/{ttl}"
     s!"rc={r.rcode},an={r.an}" ++ String.join addrs
 
 /-- ares_dns_query_reply_tostatus -/
@@ -109,16 +120,6 @@ def hexToText (h : String) : String :=
       Char.ofNat (v a * 16 + v b) :: go r
     | _ => []
   String.ofList (go h.toList)
-
-def toHexNat (n : Nat) : String := String.ofList (Nat.toDigits 16 n)
-
-/-- text of the address carried by answer `i` of the virtual server's reply (see harness/h_sim.c) -/
-def answerAddr (qtype mark i : Nat) : String :=
-  if qtype == 28 then
-    let g6 := mark / 256 % 256
-    let g7 := (mark % 256) * 256 + (i + 1)
-    if g6 == 0 then s!"2001::{toHexNat g7}" else s!"2001::{toHexNat g6}:{toHexNat g7}"
-  else s!"10.{mark / 256 % 256}.{mark % 256}.{i + 1}"
 
 /-- is the text an IPv4 literal as fake_addrinfo sees it (digits and exactly three dots, each part ≤ 255) -/
 def isV4Literal (h : String) : Bool :=
